@@ -61,7 +61,7 @@ Definition num_after (p s:bytes) : N := match strip_prefix p s with Some r => nu
 
 (* ------------------------------------------------------------------------------------------ the vocabulary *)
 Definition user_str (u:N) : bytes := k_user ++ dec u.
-Definition pass_str (p:N) : bytes := k_pass ++ dec p.
+Definition pass_str (p:N) : bytes := [32] ++ k_pass ++ dec p ++ [32].    (* " pass<p> ": the surrounding spaces are part of the password *)
 Definition realm_str (r:N) : bytes := k_realm ++ dec r ++ k_dot_org.
 
 (* base64, standard alphabet (RFC 4648 section 4) *)
